@@ -22,6 +22,7 @@ func init() {
 		&Rule{ID: "SN-ALL", Doc: "saving and loading a snapshot treat every fact, rule, check, policy and query: no element is skipped by a continue or a conditional add", Run: ruleSNAll, Min: 4},
 		&Rule{ID: "SN-FIELDS", Doc: "the authorizer snapshot writes every field of pb.AuthorizerPolicies and the loader reads every field; written version = accepted version", Run: ruleSNFields, Min: 12},
 		&Rule{ID: "SN-KIND", Doc: "policy kinds are mapped totally, inversely and name-consistently when saving and loading", Run: ruleSNKind, Min: 4},
+		&Rule{ID: "SN-KEEP", Doc: "saving a snapshot leaves the authorizer as it was: SerializePolicies stores into no field of the authorizer and applies no shrinking operation (one that re-slices its receiver, like SymbolTable.SplitOff) to its state", Run: ruleSNKeep, Min: 1},
 		&Rule{ID: "SN-DIRTY", Doc: "saving is refused once the world has been run; every successful Run marks the authorizer dirty", Run: ruleSNDirty, Min: 3},
 		&Rule{ID: "SN-SYMS", Doc: "the snapshot's symbol table is the one its content was converted with; the loader extends its table before converting", Run: ruleSNSyms, Min: 4},
 		&Rule{ID: "DT-MAPRANGE", Doc: "every range over a map has an order-insensitive body", Run: ruleDTMapRange, Min: 1},
@@ -2333,4 +2334,73 @@ func ruleSNFresh(p *Prog, r *Reporter) {
 	if n == 0 {
 		r.Bad("?", "biscuit.authorizer", "loader", "no method assigns the authorizer's symbol table (the snapshot loader was expected)")
 	}
+}
+
+// ruleSNKeep: "loading the bytes yields the same outcome as the original authorizer gives" is about the
+// original *after* it was saved, too. Saving may intern symbols (convert grows the table, idempotently);
+// it may not store into the authorizer's fields nor shrink what they hold. A shrinking function is one
+// that stores a re-slice of its receiver's own content back into the receiver (*t = (*t)[:at]).
+func ruleSNKeep(p *Prog, r *Reporter) {
+	globalP = p
+	impl, ms := authorizerImpl(p)
+	if impl == nil {
+		r.Dunno("?", "biscuit", "authorizer type", "not found")
+		return
+	}
+	var save *ssa.Function
+	for _, m := range ms {
+		if m.Name() == "SerializePolicies" {
+			save = m
+		}
+	}
+	if save == nil {
+		r.Dunno("?", "biscuit."+impl.Obj().Name(), "SerializePolicies", "not found")
+		return
+	}
+	name := p.FuncName(save)
+	stores := fieldStoresVia(save, save.Params[0])
+	why := ""
+	for _, fs := range stores {
+		why = "field " + fs.field
+	}
+	r.Check(len(stores) == 0, p.Pos(save.Pos()), name, "no field stored", "saving stores into no field of the authorizer", "SerializePolicies stores into the authorizer ("+why+"): the authorizer that was saved no longer behaves like the one the snapshot restores")
+	shrinks := func(f *ssa.Function) bool {
+		if f == nil || len(f.Params) == 0 || f.Blocks == nil {
+			return false
+		}
+		for _, b := range f.Blocks {
+			for _, in := range b.Instrs {
+				st, ok := in.(*ssa.Store)
+				if !ok || st.Addr != ssa.Value(f.Params[0]) {
+					continue
+				}
+				if sl, isSl := st.Val.(*ssa.Slice); isSl {
+					if ld, isLd := sl.X.(*ssa.UnOp); isLd && ld.Op == token.MUL && ld.X == ssa.Value(f.Params[0]) {
+						return true
+					}
+				}
+			}
+		}
+		return false
+	}
+	n := 0
+	for _, c := range callsIn(save) {
+		args := c.Common().Args
+		if len(args) == 0 {
+			continue
+		}
+		ld, isLd := args[0].(*ssa.UnOp)
+		if !isLd || ld.Op != token.MUL {
+			continue
+		}
+		fa, isFA := ld.X.(*ssa.FieldAddr)
+		if !isFA || !aliasOfParam(fa.X, save.Params[0]) {
+			continue
+		}
+		for _, callee := range p.CG().Callees(c) {
+			n++
+			r.Check(!shrinks(callee), p.instrPos(c), name, fieldName(fa)+" passed to "+callee.Name(), "the callee does not shrink the authorizer's state", "SerializePolicies applies "+calleeName(callee)+" to the authorizer's "+fieldName(fa)+", which re-slices its receiver: the saved authorizer loses part of its state (symbols interned later reuse the cut-off indexes with other meanings)")
+		}
+	}
+	r.Check(n > 0, p.Pos(save.Pos()), name, "state read", "saving reads the authorizer's state through its fields", "SerializePolicies passes no field of the authorizer to any callee: how the state is saved is outside the enumerated idioms")
 }
